@@ -76,6 +76,15 @@ theorem C13_value_fully_expanded (vars : List Rule) (fuel : Nat) (input : List C
     (h : resolveValues vars fuel input = .ok out) : ∀ o ∈ out, isInfixB tokOpen o = false :=
   resolveValues_noRef vars fuel input out h
 
+/-- **The fuel of the model is not part of the answer**: once `Resolve` succeeds with some amount, it
+gives the same preamble and attachments with any larger amount (the Go function recurses without a
+bound; the bound only exists so that the model is total). -/
+theorem C13_answer_independent_of_fuel (n m : Nat) (hnm : n ≤ m) (pre : List Rule) (att : List (List Char))
+    (res : List Rule × List (List Char)) (h : resolve n pre att = .ok res) : resolve m pre att = .ok res := by
+  induction hnm with
+  | refl => exact h
+  | step _ ih => exact resolve_fuel_mono _ pre att res ih
+
 /-- a second `=` definition of a variable is reported, not silently merged -/
 theorem C13_second_definition_is_error (r : Rule) (rs : List Rule) (seen : List (List Char)) (out : List Rule)
     (hv : isVar r = true) (hs : seen.contains (vName r) = true) (hd : vDefine r = true) :
